@@ -6,8 +6,8 @@ Deviation-bounded exhaustive enumeration, exact-arithmetic oracle
 Spaces
   billing   base read calendars x (<= d periods replaced by each off-nominal length at every
             position) x zone x entry point x temperature feed
-  phase     30-day cycle whose first read is shifted by every 0..29 days (every alignment of a
-            read date with the zone's DST dates), no deviation
+  phase     no deviation; 30-day cycle whose first read is shifted by every 0..29 days, and 30-/61-day
+            cycles whose first or closing read falls on each day of [DST date - 3, DST date + 3]
   subdaily  15/30/60-minute readings over 5 local days (DST day in the middle) and daily
             readings over 7, x (<= d runs of missing readings of each length at every start on
             a 1-hour lattice) x {NaN, absent rows} x entry point
@@ -228,21 +228,30 @@ def run_billing(case):
         kind = {"len": p["ndays"] if p["i"] in dev_pos else "base", "span": span_tag(p, zone), "pos": where}
         desc = (f"{case['cal']} dev={case.get('dev', [])} {zone} feed={case['feed']}: period {p['i']} [{p['start_date']} .. {p['end_date']}) {p['ndays']} days ({p['minutes'] / 1440:.4f} x 24 h), "
                 f"billed {float(p['amount'])}: {len(got) - n_nan} days carry usage summing to {total!r}, {n_nan} days NaN")
+        sum_ok = not all_nan and close(total, p["amount"])
         if p["validity"] == "valid":
-            beh.append("kept" if conserved else "BAD")
-            if not conserved:
+            beh.append("kept" if conserved else "dropped!" if all_nan else "squeezed!" if sum_ok else "sum!")
+            if all_nan:
+                viol.append({"clause": "valid_period_dropped", "key": dict(key0, **kind),
+                             "detail": desc + f"; the period is valid for the {regime} regime, expected a sum of {float(p['amount'])}"})
+            elif not sum_ok:
                 viol.append({"clause": "valid_period_sum", "key": dict(key0, **kind),
-                             "detail": desc + f"; expected every day present and a sum of {float(p['amount'])}"})
+                             "detail": desc + f"; expected a sum of {float(p['amount'])}"})
+            elif n_nan:
+                viol.append({"clause": "valid_period_day_without_usage", "key": dict(key0, **kind),
+                             "detail": desc + "; the bill is conserved but not spread over the whole interval (constant rate over "
+                                              "its interval): " + ", ".join(str(d) for (d, _, _), g in zip(days, got) if np.isnan(g))[:120]
+                                              + " carry nothing"})
         elif p["validity"] == "offcycle":
-            beh.append("dropped" if all_nan else "BAD")
+            beh.append("dropped" if all_nan else "kept!")
             if not all_nan:
                 viol.append({"clause": "offcycle_not_dropped", "key": dict(key0, **kind),
                              "detail": desc + f"; off-cycle for the {regime} regime, expected every day NaN"})
         else:
-            beh.append("either:" + ("kept" if conserved else "dropped" if all_nan else "BAD"))
+            beh.append("either:" + ("kept" if conserved else "dropped" if all_nan else "BAD!"))
             if not (conserved or all_nan):
                 viol.append({"clause": "ambiguous_period_neither_kept_nor_dropped", "key": dict(key0, **kind),
-                             "detail": desc + "; expected either conserved or entirely NaN"})
+                             "detail": desc + "; expected either conserved over every day or entirely NaN"})
         if conserved:
             by_min = all(close(g, a) for g, (_, a, _) in zip(got, days))
             by_day = all(close(g, b) for g, (_, _, b) in zip(got, days))
@@ -262,20 +271,19 @@ def run_billing(case):
 
 
 def billing_cases(tier):
-    zones = ZONES_QUICK if tier == "quick" else ZONES_ALL
-    entries = ["from_series", "frame_lastday", "frame_extra"]
-    feeds = ["daily", "hourly"]
+    quick = tier == "quick"
+    zones = ZONES_QUICK if quick else ZONES_ALL
+    # (entry, feed): the feed matters for from_series (trimming) and for the frame's index
+    combos = [("from_series", "daily"), ("from_series", "hourly"), ("frame_lastday", "daily"), ("frame_extra", "daily")]
+    if not quick:
+        combos += [("frame_lastday", "hourly"), ("frame_extra", "hourly")]
     out = []
 
-    def product(cal, dev, zs, es, fs, classes):
-        for z in zs:
-            for e in es:
-                for f in fs:
-                    for c in classes:
-                        out.append({"space": "billing", "cal": cal, "dev": dev, "zone": z, "entry": e, "feed": f, "cls": c})
+    def add(cal, dev, z, e, f, c="baseline"):
+        out.append({"space": "billing", "cal": cal, "dev": dev, "zone": z, "entry": e, "feed": f, "cls": c})
 
     for d in (0, 1, 2):
-        if d == 2 and tier == "quick":
+        if d == 2 and quick:
             break
         for cal, (_, lens, _) in CALENDARS.items():
             n = len(lens)
@@ -283,28 +291,45 @@ def billing_cases(tier):
                 for lengths in itertools.product(DEV_LENGTHS, repeat=d):
                     dev = [[p, l] for p, l in zip(positions, lengths)]
                     if d <= 1:
-                        product(cal, dev, zones, entries, feeds, ["baseline"])
-                        if d == 0 or tier == "thorough" or positions[0] in (0, 2, n - 1):
-                            product(cal, dev, zones if tier == "thorough" else ["America/Chicago"], entries, ["daily"],
-                                    ["reporting"])
+                        for z in zones:
+                            for e, f in combos:
+                                add(cal, dev, z, e, f)
+                        # Reporting classes: same resampling code; thinner slice
+                        if d == 0 or not quick or positions[0] in (0, n - 2, n - 1):
+                            for z in (["America/Chicago"] if quick else ["America/Chicago", "Australia/Sydney"]):
+                                for e in ("from_series", "frame_lastday", "frame_extra"):
+                                    add(cal, dev, z, e, "daily", "reporting")
                     else:
-                        # two deviations: every pair of positions x every pair of lengths, on the cheapest feed,
-                        # entry points alternate by zone so that each is exercised with a DST zone
-                        product(cal, dev, ["America/Chicago"], ["from_series"], ["daily"], ["baseline"])
-                        if positions[1] - positions[0] <= 2 or positions[1] == n - 1:
-                            product(cal, dev, ["Australia/Sydney"], ["frame_lastday", "frame_extra"], ["daily"], ["baseline"])
+                        p, q = positions
+                        interacting = q - p == 1 or q == n - 1 or p == 0
+                        if cal in ("cycle30", "bimonthly61") or interacting:
+                            add(cal, dev, "America/Chicago", "from_series", "daily")
+                        if cal == "cycle30" and (q - p == 1 or q == n - 1):
+                            add(cal, dev, "Australia/Sydney", "frame_lastday", "daily")
+                            add(cal, dev, "Australia/Sydney", "frame_extra", "daily")
     return out
 
 
 def phase_cases(tier):
+    """No deviation; (a) 30-day cycle shifted by every 0..29 days: every alignment of an interior read with the
+    zone's DST dates; (b) 30-day and 61-day cycles placed so that the FIRST read or the CLOSING read falls on every
+    day of [DST date - 3, DST date + 3] for both changes of the zone."""
     zones = ZONES_QUICK if tier == "quick" else ZONES_ALL
+    combos = [("from_series", "daily"), ("from_series", "hourly"), ("frame_lastday", "daily"), ("frame_lastday", "hourly"),
+              ("frame_extra", "daily"), ("frame_extra", "hourly")]
     out = []
     for z in zones:
-        for e in ["from_series", "frame_lastday", "frame_extra"]:
-            for f in ["daily", "hourly"]:
-                for ph in range(30):
-                    out.append({"space": "billing", "cal": "cycle30", "dev": [], "phase": ph, "zone": z, "entry": e,
-                                "feed": f, "cls": "baseline"})
+        firsts = [("cycle30", iv.add_days(CALENDARS["cycle30"][0], ph)) for ph in range(30)]
+        for d, _ in dst_dates(z, 2022):
+            for cal in ("cycle30", "bimonthly61"):
+                span = sum(CALENDARS[cal][1])
+                for k in range(-3, 4):
+                    firsts.append((cal, iv.add_days(d, k)))            # first read on DST day + k
+                    firsts.append((cal, iv.add_days(d, k - span)))     # closing read on DST day + k
+        for cal, first in firsts:
+            for e, f in combos:
+                out.append({"space": "billing", "cal": cal, "dev": [], "first": first.isoformat(), "zone": z, "entry": e,
+                            "feed": f, "cls": "baseline"})
     return out
 
 
@@ -480,31 +505,49 @@ def run_sets(f, n, d, lattice_hours=1):
 
 
 def subdaily_cases(tier):
-    zones = ZONES_QUICK if tier == "quick" else ZONES_ALL
+    quick = tier == "quick"
+    zones = ZONES_QUICK if quick else ZONES_ALL
     out = []
+
+    def combos(f, z, w):
+        """(gap, entry, cls) combinations enumerated with single runs for this (interval, zone, window)."""
+        full = [(g, e, "baseline") for g in ("nan", "absent") for e in ("from_series", "frame")]
+        if not quick:
+            if z == "Asia/Kolkata" and f in (15, 30):
+                return []
+            rep = [("nan", e, "reporting") for e in ("from_series", "frame")] if z == "America/Chicago" and f in (60, 1440) else []
+            return full + rep
+        if f in (60, 1440):
+            rep = [("nan", "from_series", "reporting")] if (z, w) == ("America/Chicago", "spring") else []
+            return full + rep
+        if z == "UTC":
+            return []
+        main, other = ("spring", "autumn") if f == 30 else ("autumn", "spring")
+        if w == main:
+            return [("nan", "from_series", "baseline"), ("absent", "from_series", "baseline")]
+        return [("nan", "frame", "baseline")]
+
     for d in (0, 1, 2):
-        if d == 2 and tier == "quick":
+        if d == 2 and quick:
             break
         for f in (60, 30, 15, 1440):
             for z in zones:
                 for w in windows_for(z):
                     base = {"space": "subdaily", "freq": f, "zone": z, "window": w}
                     n = len(subdaily_series(dict(base))[4])
-                    if d <= 1:
-                        for runs in run_sets(f, n, d):
-                            for gap in ("nan", "absent"):
-                                if d == 0 and gap == "absent":
-                                    continue
-                                for entry in ("from_series", "frame"):
-                                    out.append(dict(base, runs=runs, gap=gap, entry=entry, cls="baseline"))
-                                    if (d == 0 or f in (60, 1440)) and z != "UTC" and (tier == "thorough" or z == "America/Chicago") \
-                                            and gap == "nan":
-                                        out.append(dict(base, runs=runs, gap=gap, entry=entry, cls="reporting"))
+                    if d == 0:
+                        for e in ("from_series", "frame"):
+                            for c in ("baseline", "reporting"):
+                                out.append(dict(base, runs=[], gap="nan", entry=e, cls=c))
+                    elif d == 1:
+                        for runs in run_sets(f, n, 1):
+                            for gap, entry, cls in combos(f, z, w):
+                                out.append(dict(base, runs=runs, gap=gap, entry=entry, cls=cls))
                     else:
-                        # two runs: hourly and daily readings, Chicago, 3-hour lattice, both gap kinds via from_series
+                        # two runs: hourly and daily readings, Chicago, 4-hour lattice, both gap kinds via from_series
                         if z != "America/Chicago" or f not in (60, 1440):
                             continue
-                        for runs in run_sets(f, n, 2, lattice_hours=3):
+                        for runs in run_sets(f, n, 2, lattice_hours=4):
                             for gap in ("nan", "absent"):
                                 out.append(dict(base, runs=runs, gap=gap, entry="from_series", cls="baseline"))
     return out
@@ -521,7 +564,7 @@ def run_case(case):
 def run(tier, seed):
     spaces = [
         ("billing calendars x period-length deviations", billing_cases(tier)),
-        ("30-day cycle x every phase against the DST dates", phase_cases(tier)),
+        ("undeviated cycles x every alignment of reads with the DST dates", phase_cases(tier)),
         ("sub-daily / daily readings x runs of missing readings", subdaily_cases(tier)),
     ]
     exps = []
